@@ -621,6 +621,12 @@ func cmdC19(args []string) {
 
 				return
 			}
+			if res.Counters["violations"] >= 40 {
+				res.note("stopped after %d violations", res.Counters["violations"])
+				res.Distinct = len(e.distinct)
+
+				return
+			}
 			if err := e.runGroup(p, g[:n]); err != nil {
 				res.inconclusive("%v", err)
 
